@@ -37,6 +37,23 @@ def entries : List Entry := [
   { kind := "M", op := "c19.getflags", run := fun
       | [f, w] => do let f ← family? f; let w ← wordArg f.bits w; pure ("ok " ++ natList (Family.getFlagsIn f.rows w))
       | _ => none },
+  -- spec: the declared non-reserved flags that are set, ascending; set reserved bits may be listed among them or not
+  -- (third argument: the list the implementation returned, `none` if it returned no list)
+  { kind := "S", op := "c19.getflags", run := fun
+      | [f, w, got] => do
+        let f ← family? f; let w ← wordArg f.bits w
+        let want := specGetFlags f.consts w
+        let gotL : Option (List Nat) :=
+          if got == "." then some [] else (got.splitOn ",").mapM (fun t => t.toNat?)
+        let reserved := (f.consts.filter (fun c => c.isReserved)).map (·.value)
+        match gotL with
+        | some l =>
+          let ascending := (l.zip (l.drop 1)).all (fun p => p.1 < p.2)
+          let extraOk := l.all (fun v => want.contains v || (reserved.contains v && (w &&& v) != 0))
+          if ascending && extraOk && l.filter (fun v => !reserved.contains v || want.contains v) == want
+          then pure ("ok " ++ natList l) else pure ("ok " ++ natList want)
+        | none => pure ("ok " ++ natList want)
+      | _ => none },
   -- spec: normalised names of the declared non-reserved bits that are set, sorted
   { kind := "S", op := "c19.set", run := fun
       | [f, w] => do
